@@ -52,9 +52,17 @@ def run(ctx, col, tier):
              "(never by position), the frame is permuted by the traversal's order and the new ids / parent ids are stored in "
              "that same row order (row-order kinds F/S/P inferred); a tree gets one node per row of the table", floor=12, shape=True)
     col.guard(sort_clause, ctx, col)
+    col.guard(reader_handle, ctx, col)
+    from ..rules import narrowing, sortedness
+    narrowing.run(ctx, col, (f"{IO}.read_swc", f"{IO}.parse_swc", "swcgeom.core.tree.Tree.from_swc", "swcgeom.core.tree.Tree.from_data_frame",
+                             "swcgeom.core.swc_utils.normalizer.sort_nodes_", "swcgeom.core.swc_utils.normalizer.sort_nodes_impl"))
+    sortedness.run(ctx, col, ("swcgeom.core.swc_utils.io", "swcgeom.core.swc_utils.normalizer", "swcgeom.core.swc_utils.base"))
 
     p = repo.get_def(f"{IO}.parse_swc")
-    w, loop, handle = file_loop(ctx, p)
+    got = col.guard(file_loop, ctx, p)
+    if got is None:
+        return  # the line loop is not of the anchored form: reported as R-ANCHOR (a definite violation found above still wins)
+    w, loop, handle = got
     from .c01 import r_capture
     col.guard(r_capture, ctx, col, "R-CAPTURE")
 
@@ -267,3 +275,43 @@ def sort_clause(ctx, col):
                                 stmt="t:count-from-values", definite=True)
                         exprs = []
                         break
+
+
+def reader_handle(ctx, col):
+    """The text handle the line loop iterates: universal-newline text mode over the caller's bytes / file, lines as the file has them."""
+    repo = ctx.repo
+    col.rule("R-HANDLE", "the reader iterates a text handle in universal-newline mode (CRLF and LF end a line alike, nothing of the terminator stays in the "
+             "text), opened with the requested encoding; the line loop iterates the handle itself (the last line need not end in a newline)", floor=4, shape=True)
+    en = repo.get_def("swcgeom.utils.file.FileReader.__enter__")
+    col.text_group("R-HANDLE", en.qualname, en, [
+        ("bytes are wrapped as text with the requested encoding, default newline handling", ["self.f = TextIOWrapper(self.fb, encoding=self.encoding)"], "h:wrap"),
+        ("a path is opened for reading as text with the requested encoding", ["self.f = open(self.fname, 'r', encoding=self.encoding, **self.kwargs)"], "h:open"),
+        ("the handle is returned", ["return self.f"], "h:ret")])
+    # newline= other than None switches universal newlines off
+    for c in own_nodes(en):
+        if isinstance(c, ast.Call) and (dotted(c.func) or "") in ("open", "TextIOWrapper", "io.TextIOWrapper", "io.open"):
+            for k in c.keywords:
+                if k.arg == "newline" and not (isinstance(k.value, ast.Constant) and k.value.value is None):
+                    col.bad("R-HANDLE", en.qualname, en.loc(c), "universal-newline text mode",
+                            f"`{norm_src(c)[:80]}` passes newline={norm_src(k.value)}: line terminators are no longer translated, so the `\\r` of a CRLF file stays at the "
+                            f"end of every line (comment text comes back with it)", stmt="h:newline", definite=True)
+        if isinstance(c, ast.Call) and isinstance(c.func, ast.Attribute) and c.func.attr in ("setdefault", "update", "__setitem__") and "kwargs" in norm_src(c.func.value) \
+                and any(isinstance(a, ast.Constant) and a.value == "newline" for a in ast.walk(c)):
+            col.bad("R-HANDLE", en.qualname, en.loc(c), "universal-newline text mode",
+                    f"`{norm_src(c)[:80]}` sets a `newline` option for open(): line terminators are no longer translated", stmt="h:newline-kw", definite=True)
+    p = repo.get_def(f"{IO}.parse_swc")
+    # cutting the text by hand and dropping the last piece loses an unterminated last line
+    for lp in [n for n in own_nodes(p) if isinstance(n, (ast.For, ast.comprehension))]:
+        for e_ in expand_names(p, lp.iter):
+            for n in ast.walk(e_):
+                if isinstance(n, ast.Subscript) and isinstance(n.slice, ast.Slice) and n.slice.upper is not None and norm_src(n.slice.upper) == "-1" \
+                        and any(isinstance(c, ast.Call) and isinstance(c.func, ast.Attribute) and c.func.attr in ("split", "splitlines") for c in ast.walk(n.value)):
+                    col.bad("R-HANDLE", p.qualname, p.loc(lp) if isinstance(lp, ast.For) else p.loc(), "every line of the text is looked at, the last one too",
+                            f"`{norm_src(n)[:70]}` drops the last piece of the split text: when the text does not end in a newline that piece is the last data row",
+                            stmt="h:lastline", definite=True)
+    w, loop, handle = file_loop(ctx, p)
+    it = loop.iter
+    direct = (isinstance(it, ast.Name) and it.id == handle) or (isinstance(it, ast.Call) and dotted(it.func) == "enumerate" and it.args
+                                                                and isinstance(it.args[0], ast.Name) and it.args[0].id == handle)
+    col.shape(direct, "R-HANDLE", p.qualname, p.loc(loop), "the line loop iterates the handle itself", norm_src(it)[:60],
+              f"the loop iterates `{norm_src(it)[:60]}`, not the handle: how the text is cut into lines is no longer the handle's", stmt="h:iter")
